@@ -168,6 +168,8 @@ type lState struct {
 	restarts int
 	resigned int
 	round    int32
+	step     int32
+	locked   int32
 	timers   int
 	pend     int
 	terminal bool
@@ -211,6 +213,7 @@ type explorer struct {
 	live   []map[int32]*csNode  // per node: live engine instances by current local state
 	stats  xStats
 	mismatch []string
+	menuIdx  map[int32]int
 	diffEvery int // run the differential projection check on every diffEvery-th memo miss (<=1: all)
 	nodeHook func(n *csNode) // applied to every fresh node (e.g. WAL factory side effects)
 }
@@ -276,6 +279,8 @@ func (x *explorer) describe(n *csNode) *lState {
 		restarts: n.restarts, resigned: n.resigned}
 	if !n.dead() {
 		st.round = n.cs.round
+		st.step = int32(n.cs.step)
+		st.locked = n.cs.lockedRound
 		st.timers = len(n.pendingTimers())
 		st.pend = len(n.bm.live())
 	}
@@ -765,6 +770,7 @@ type devCfg struct {
 	maxStates  int
 	reorder    bool
 	crashInside bool // deviation: crash inside the default next step, before each of its effects
+	preAllowNode map[int]allowSet // Byzantine strategy, per receiving node (overrides preAllow for that node)
 	preAllow   allowSet  // Byzantine strategy: menu entries released to every node from the start
 	prefix     []dAction // base schedule applied before the search starts (cost 0)
 }
@@ -834,6 +840,9 @@ func (x *explorer) searchDev(cfg devCfg) *devResult {
 	}
 	for _, i := range x.correct {
 		s0.allow[i] = cfg.preAllow
+		if a, ok := cfg.preAllowNode[i]; ok {
+			s0.allow[i] = a
+		}
 	}
 	seen := map[dState]int8{}
 	var path []dAction
@@ -1099,3 +1108,5 @@ func (x *explorer) searchDev(cfg devCfg) *devResult {
 	res.complete = !stopped
 	return res
 }
+
+func hexs(b []byte) string { return hex.EncodeToString(b) }
